@@ -351,6 +351,146 @@ pub fn cli_sharing_check(rng: &mut Rng, counters: &mut BTreeMap<String, u64>) ->
     }
 }
 
+/// The dealer as a separate PROCESS: the repository's `ciphercore_split_parties` binary (built from the current tree by
+/// `./check C14`, path in VERIF_SPLIT_BIN) splits a file of typed inputs into one file per party according to the owner
+/// tokens. Two dealer processes are run on the same inputs. Oracles: an input owned by party p appears in p's file only
+/// (the others get a value of the same type that is not the secret); a public input appears everywhere; a secret-shared
+/// input gives party j a triple whose slots j and j+1 agree with the neighbours' and add up to the secret while the third
+/// slot is not the missing share; and the two processes draw different shares (the generator is seeded by the OS, which
+/// the harness cannot replay - the verdict does not depend on the draw except with probability < 2^-60).
+pub fn split_parties_check(rng: &mut Rng, counters: &mut BTreeMap<String, u64>) -> Option<(String, String)> {
+    let bin = match std::env::var("VERIF_SPLIT_BIN") {
+        Ok(b) if std::path::Path::new(&b).exists() => b,
+        _ => {
+            *counters.entry("split-parties:binary-not-built(skipped)".into()).or_insert(0) += 1;
+            return None;
+        }
+    };
+    let k = 1 + rng.usize_below(4);
+    let mut inputs: Vec<TypedValue> = vec![];
+    let mut owners: Vec<&str> = vec![];
+    for i in 0..k {
+        let t = if rng.chance(1, 3) { array_type(vec![2 + rng.below(3)], UINT64) } else { { let d = 1 + rng.below(2) as u32; gen_type(rng, d) } };
+        let v = if rng.chance(1, 4) { biased_value(&t, rng) } else { crate::vals::random_value(&t, rng) };
+        inputs.push(TypedValue::new(t, v).ok()?);
+        owners.push(if i == 0 { "secret-shared" } else { *rng.pick(&["0", "1", "2", "public", "secret-shared", "secret-shared"]) });
+    }
+    let dir = std::env::temp_dir().join(format!("verif-split-{}-{}", std::process::id(), rng.next_u64()));
+    if std::fs::create_dir_all(&dir).is_err() {
+        *counters.entry("split-parties:harness-errors".into()).or_insert(0) += 1;
+        eprintln!("HARNESS-ERROR: cannot create a scratch directory {:?}", dir);
+        return None;
+    }
+    let res = (|| -> Result<Option<(String, String)>, String> {
+        let inp = dir.join("inputs.json");
+        std::fs::write(&inp, serde_json::to_string(&inputs).map_err(|e| e.to_string())?).map_err(|e| e.to_string())?;
+        let mut runs: Vec<Vec<Vec<TypedValue>>> = vec![];
+        for r in 0..2 {
+            let outs: Vec<std::path::PathBuf> = (0..3).map(|p| dir.join(format!("run{}-party{}.json", r, p))).collect();
+            let st = std::process::Command::new(&bin)
+                .arg(&inp)
+                .arg(owners.join(","))
+                .args(&outs)
+                .env_remove("RUST_LOG")
+                .output()
+                .map_err(|e| format!("cannot start {}: {}", bin, e))?;
+            *counters.entry("split-parties:dealer-processes".into()).or_insert(0) += 1;
+            if !st.status.success() {
+                return Ok(Some(("split-parties".into(), format!("the dealer process failed on valid inputs (owners {}): {}", owners.join(","), String::from_utf8_lossy(&st.stderr).lines().next().unwrap_or("")))));
+            }
+            let mut per_party = vec![];
+            for o in &outs {
+                let txt = std::fs::read_to_string(o).map_err(|e| e.to_string())?;
+                match serde_json::from_str::<Vec<TypedValue>>(&txt) {
+                    Ok(v) if v.len() == k => per_party.push(v),
+                    Ok(v) => return Ok(Some(("split-parties".into(), format!("a party file holds {} values for {} inputs", v.len(), k)))),
+                    Err(e) => return Ok(Some(("split-parties".into(), format!("a party file does not parse: {}", e)))),
+                }
+            }
+            runs.push(per_party);
+        }
+        for i in 0..k {
+            let t = inputs[i].t.clone();
+            let secret = &inputs[i].value;
+            let bits = ciphercore_base::data_types::get_size_in_bits(t.clone()).unwrap_or(0);
+            let nonzero_bytes = crate::vals::flat_bytes(secret).iter().filter(|b| **b != 0).count();
+            for (r, run) in runs.iter().enumerate() {
+                match owners[i] {
+                    "public" => {
+                        for p in 0..3 {
+                            if run[p][i].t != t || !typed_eq(&t, &run[p][i].value, secret) {
+                                return Ok(Some(("split-parties".into(), format!("public input {} is not handed to party {} unchanged", i, p))));
+                            }
+                        }
+                    }
+                    "0" | "1" | "2" => {
+                        let o: usize = owners[i].parse().unwrap();
+                        for p in 0..3 {
+                            if run[p][i].t != t || !run[p][i].value.check_type(t.clone()).unwrap_or(false) {
+                                return Ok(Some(("split-parties".into(), format!("input {} in the file of party {} does not have the input's type", i, p))));
+                            }
+                            let same = typed_eq(&t, &run[p][i].value, secret);
+                            if p == o && !same {
+                                return Ok(Some(("split-parties".into(), format!("input {} owned by party {} is not in its file", i, o))));
+                            }
+                            if p != o && same && nonzero_bytes >= 4 {
+                                return Ok(Some(("owner-input-leak".into(), format!("input {} owned by party {} appears in the file of party {} (run {})", i, o, p, r))));
+                            }
+                        }
+                        *counters.entry("split-parties:party-owned-inputs".into()).or_insert(0) += 1;
+                    }
+                    _ => {
+                        let st3 = tuple_type(vec![t.clone(), t.clone(), t.clone()]);
+                        let mut slots: Vec<Vec<Value>> = vec![];
+                        for p in 0..3 {
+                            if run[p][i].t != st3 {
+                                return Ok(Some(("split-parties".into(), format!("shared input {}: party {} does not get a triple of the input's type", i, p))));
+                            }
+                            match as_vec(&run[p][i].value) {
+                                Some(v) if v.len() == 3 && v.iter().all(|x| x.check_type(t.clone()).unwrap_or(false)) => slots.push(v),
+                                _ => return Ok(Some(("split-parties".into(), format!("shared input {}: party {}'s triple is not three values of the input's type", i, p)))),
+                            }
+                        }
+                        for p in 0..3 {
+                            let nx = (p + 1) % 3;
+                            if !typed_eq(&t, &slots[p][nx], &slots[nx][nx]) {
+                                return Ok(Some(("layout".into(), format!("shared input {}: slot {} differs between its holders, parties {} and {}", i, nx, p, nx))));
+                            }
+                            let missing = (p + 2) % 3;
+                            if bits >= 64 && crate::vals::all_bytes_full(&t) && typed_eq(&t, &slots[p][missing], &slots[missing][missing]) {
+                                return Ok(Some(("third-slot-leak".into(), format!("shared input {}: the third slot in party {}'s file equals the share it must not know", i, p))));
+                            }
+                        }
+                        let sum = sum3(&t, &slots[0][0], &slots[1][1], &slots[2][2]);
+                        if !typed_eq(&t, &sum, secret) {
+                            return Ok(Some(("reconstruction".into(), format!("shared input {}: the three shares in the party files do not add up to the secret", i))));
+                        }
+                        *counters.entry("split-parties:shared-inputs".into()).or_insert(0) += 1;
+                    }
+                }
+            }
+            if owners[i] == "secret-shared" && bits >= 64 && crate::vals::all_bytes_full(&t) {
+                let a = as_vec(&runs[0][0][i].value).unwrap_or_default();
+                let b = as_vec(&runs[1][0][i].value).unwrap_or_default();
+                *counters.entry("split-parties:two-process-freshness-tests".into()).or_insert(0) += 1;
+                if a.len() == 3 && b.len() == 3 && (typed_eq(&t, &a[0], &b[0]) || typed_eq(&t, &a[1], &b[1])) {
+                    return Ok(Some(("shares-not-fresh".into(), format!("shared input {} ({}): two separate dealer processes handed party 0 the same share - the shares are a function of the secret alone", i, crate::dsl::type_str(&t)))));
+                }
+            }
+        }
+        Ok(None)
+    })();
+    let _ = std::fs::remove_dir_all(&dir);
+    match res {
+        Ok(v) => v,
+        Err(e) => {
+            *counters.entry("split-parties:harness-errors".into()).or_insert(0) += 1;
+            eprintln!("HARNESS-ERROR: split-parties stage: {}", e);
+            None
+        }
+    }
+}
+
 pub struct ShareOut {
     pub violation: Option<ShareReplay>,
     pub counters: BTreeMap<String, u64>,
@@ -374,6 +514,18 @@ pub fn run_c14(args: &Args) -> i32 {
             Tier::Thorough => 400,
         } {
             if let Some(v) = cli_sharing_check(&mut r, &mut counters) {
+                dist_v = Some(v);
+                break;
+            }
+        }
+    }
+    if dist_v.is_none() {
+        let mut r = Rng::derive(args.seed, "C14-split", 0);
+        for _ in 0..match args.tier {
+            Tier::Quick => 10,
+            Tier::Thorough => 150,
+        } {
+            if let Some(v) = split_parties_check(&mut r, &mut counters) {
                 dist_v = Some(v);
                 break;
             }
@@ -469,13 +621,14 @@ pub fn run_c14(args: &Args) -> i32 {
         code = 1;
     }
     let wall = t0.elapsed().as_secs_f64();
+    let harness_errors = counters.get("split-parties:harness-errors").cloned().unwrap_or(0);
     if samples.is_empty() {
         samples.push(serde_json::json!({"note": "no case completed"}));
     }
     let ev = EvidenceOut {
         args,
         level: "exploration",
-        rule: "cases = seeded (type, secret, dealer seed, sharing API, lost party): types over all 11 scalar types, arrays incl. ragged bit arrays, nested tuples/vectors/named tuples; APIs get_local_shares_for_each_party, ReplicatedShares::secret_share_for_parties, share_vector (+ secret_share/secret_share_reveal and ReplicatedShares reveal on the full tuple); fault = loss of one of the three parties before reconstruction. distinct_nontrivial = distinct (API, type, lost party) combinations with a non-empty type. Plus two-world distribution tests of one party's held shares over dealer seeds".into(),
+        rule: "cases = seeded (type, secret, dealer seed, sharing API, lost party): types over all 11 scalar types, arrays incl. ragged bit arrays, nested tuples/vectors/named tuples; APIs get_local_shares_for_each_party, ReplicatedShares::secret_share_for_parties, share_vector (+ secret_share/secret_share_reveal and ReplicatedShares reveal on the full tuple); fault = loss of one of the three parties before reconstruction. distinct_nontrivial = distinct (API, type, lost party) combinations with a non-empty type. Plus two-world distribution tests of one party's held shares over dealer seeds, the on-the-fly sharing of get_evaluator_result, and the ciphercore_split_parties binary run as two separate dealer processes per input file (owner routing, layout, reconstruction, fresh shares per process)".into(),
         evaluations: results.len().max(1) as u64,
         distinct_nontrivial: distinct.len() as u64,
         samples,
@@ -483,7 +636,7 @@ pub fn run_c14(args: &Args) -> i32 {
             "counters": counters,
             "faults_fired": {"party-loss": results.len()},
             "cases_per_hour": if wall > 0.0 { (results.len() as f64 / wall * 3600.0) as u64 } else { 0 },
-            "components": {"real": ["TypedValue::secret_share / secret_share_reveal / get_local_shares_for_each_party", "ReplicatedShares::secret_share_for_parties / secret_share_for_local_evaluation / reveal", "mpc::utils::share_vector", "PRNG"], "stub": ["dealer/party/transport roles", "reconstruction from held slots", "statistics"]}
+            "components": {"real": ["TypedValue::secret_share / secret_share_reveal / get_local_shares_for_each_party", "ReplicatedShares::secret_share_for_parties / secret_share_for_local_evaluation / reveal", "mpc::utils::share_vector", "PRNG", "get_evaluator_result", "ciphercore_split_parties (binary built from the current tree, run as a process; its generator is seeded by the OS)"], "stub": ["dealer/party/transport roles", "reconstruction from held slots", "statistics"]}
         }),
         assumptions: vec!["party p is documented to hold slots p and p+1 (typed_value.rs, replicated_shares.rs, mpc/utils.rs)".into(), "statistical thresholds have false-alarm probability < e^-40 per test; the default seed makes the verdict on the unchanged tree a fixed fact".into()],
         wall_s: wall,
@@ -495,6 +648,9 @@ pub fn run_c14(args: &Args) -> i32 {
         return 2;
     }
     println!("[C14] tier={} seed={} cases={} distribution_runs_per_world={} wall={:.1}s", args.tier.name(), args.seed, results.len(), dist_n, wall);
+    if code == 0 && harness_errors > 0 {
+        return 2;
+    }
     code
 }
 
@@ -522,6 +678,15 @@ pub fn replay_cmd(path: &str) -> i32 {
             let mut r = Rng::derive(seed, "C14-cli", 0);
             for _ in 0..400 {
                 v = cli_sharing_check(&mut r, &mut c);
+                if v.is_some() {
+                    break;
+                }
+            }
+        }
+        if v.is_none() {
+            let mut r = Rng::derive(seed, "C14-split", 0);
+            for _ in 0..150 {
+                v = split_parties_check(&mut r, &mut c);
                 if v.is_some() {
                     break;
                 }
